@@ -1,17 +1,30 @@
-(* Main.v -- dispatch of one protocol line to the stream runners *)
-From RW Require Import Base.Bytes Run.Wire Run.RunCodec Run.RunVfy.
+(* Main.v -- dispatch of one protocol line to the stream runners.
+   To add a stream: import its Run file and add its (keyword, runner) pairs. *)
+From RW Require Import Base.Bytes Run.Wire Run.RunCodec Run.RunSeg Run.RunWal Run.RunMig Run.RunFs Run.RunHist Run.RunVfy.
 Open Scope N_scope.
 
-Definition k_enc : str := [101; 110; 99].   (* "enc" *)
-Definition k_dec : str := [100; 101; 99].   (* "dec" *)
-Definition k_vfy : str := [118; 102; 121].  (* "vfy" *)
+Definition handlers : list (str * (list str -> str)) :=
+  [ ([101; 110; 99], run_enc);     (* "enc" *)
+    ([100; 101; 99], run_dec);     (* "dec" *)
+    ([115; 101; 103], run_seg);    (* "seg" *)
+    ([119; 97; 108], run_wal);     (* "wal" *)
+    ([109; 105; 103], run_mig);    (* "mig" *)
+    ([115; 116; 98], run_stb);     (* "stb" *)
+    ([102; 115; 116], run_fst);    (* "fst" *)
+    ([102; 115; 111], run_fso);    (* "fso" *)
+    ([104; 105; 115; 116], run_hist); (* "hist" *)
+    ([102; 104; 105; 115; 116], run_fhist); (* "fhist" *)
+    ([118; 102; 121], run_vfy)     (* "vfy" *)
+  ].
+
+Fixpoint dispatch (hs : list (str * (list str -> str))) (cmd : str) (args : list str) : str :=
+  match hs with
+  | [] => s_bad
+  | (k, f) :: r => if str_eqb cmd k then f args else dispatch r cmd args
+  end.
 
 Definition run_line (line : str) : str :=
   match tokens line with
-  | cmd :: args =>
-      if str_eqb cmd k_enc then run_enc args
-      else if str_eqb cmd k_dec then run_dec args
-      else if str_eqb cmd k_vfy then run_vfy args
-      else s_bad
+  | cmd :: args => dispatch handlers cmd args
   | [] => s_bad
   end.
